@@ -39,13 +39,13 @@ def run_c09(unit):
     seen_classes = set()
     for ci, (form, c, desc) in enumerate(_callables(shape, entered, mode)):
         tables = [K.Table() for _ in cfgs]
-        for (args, kwi) in S.call_forms(shape, maxpos, maxkw, orders=True):
+        for (args, kwi) in _with_spelled_defaults(c, S.call_forms(shape, maxpos, maxkw, orders=True)):
             ok, got = S.really_binds(c, entered, args, kwi)
             if not ok:
                 continue
             out['counters']['calls'] += 1
             b = K.freeze(got, strict=True)
-            call = (len(args), [k for k, _ in kwi])
+            call = _enc_call(args, kwi)
             try:
                 a2, k2 = I._keygen(c, (), *args, **dict(kwi))
             except Exception as e:      # noqa
@@ -67,14 +67,39 @@ def run_c09(unit):
                 except deal.PostContractError as e:
                     other = tables[j].by_binding[b][1]
                     _viol(out, seen_classes, 'canonical', klass_features(shape, form, cfgs[j]),
-                          '%s, keymap %r: %s and the call with %d positionals and keywords %r bind the same values but get different keys'
-                          % (desc, cfgs[j], K.call_repr(args, kwi), other[0], other[1]),
+                          '%s, keymap %r: %s and %s bind the same values but get different keys'
+                          % (desc, cfgs[j], K.call_repr(args, kwi), _call_text(other)),
                           {'prop': 'C09', 'mode': mode, 'shape': idx, 'callable': ci, 'cfg': list(cfgs[j]), 'calls': [call, other], 'desc': desc})
         out['counters']['bindings'] += len(tables[0].by_binding)
         out['distinct'] += len(tables[0].by_binding) * len(cfgs)
         if not out['samples'] and tables[0].by_binding:
             out['samples'].append({'callable': desc, 'distinct_bindings': len(tables[0].by_binding), 'keymap_configurations': len(cfgs)})
     return out
+
+
+def _with_spelled_defaults(c, forms):
+    """every call form, and the same form with the arguments that go to defaulted parameters set to the default
+    itself (so that 'default omitted' and 'default spelled out' meet in one binding)"""
+    import inspect
+    try:
+        ps = [p for p in inspect.signature(c).parameters.values()]
+    except (TypeError, ValueError):
+        ps = []
+    posd = [(p.default if p.default is not p.empty else None, p.default is not p.empty) for p in ps
+            if p.kind in (p.POSITIONAL_ONLY, p.POSITIONAL_OR_KEYWORD)]
+    kwd = {p.name: p.default for p in ps if p.default is not p.empty and p.kind in (p.POSITIONAL_OR_KEYWORD, p.KEYWORD_ONLY)}
+    for (args, kwi) in forms:
+        yield args, kwi
+        a2 = tuple(posd[i][0] if i < len(posd) and posd[i][1] else v for i, v in enumerate(args))
+        k2 = [(k, kwd.get(k, v)) for k, v in kwi]
+        if a2 != args or k2 != kwi:
+            yield a2, k2
+
+
+def _call_text(call):
+    args = tuple(_dec(x) for x in call['args'])
+    kwi = [(k, _dec(v)) for k, v in call['kw']]
+    return K.call_repr(args, kwi)
 
 
 def _viol(out, seen, clause, klass, message, witness):
@@ -92,9 +117,9 @@ def replay_c09(w):
     form, c, desc = _callables(shape, entered, w['mode'])[w['callable']]
     _, I, _ = K._mods()
     keys = []
-    for (na, kwn) in w['calls']:
-        args = tuple(S.Tok('p%d' % i) for i in range(na))
-        kwi = [(n, S.Tok('kw-' + n)) for n in kwn]
+    for call in w['calls']:
+        args = tuple(_dec(x) for x in call['args'])
+        kwi = [(k, _dec(v)) for k, v in call['kw']]
         ok, got = S.really_binds(c, entered, args, kwi)
         try:
             a2, k2 = I._keygen(c, (), *args, **dict(kwi))
@@ -345,12 +370,86 @@ def run_c11(unit):
                           {'prop': 'C11', 'mode': mode, 'shape': idx, 'callable': ci, 'spec': list(spec), 'call': _enc_call(args, kwi),
                            'other': _enc_call(r[1], r[2]), 'desc': desc, 'kind': 'merge'})
             out['distinct'] += len(by_proj)
+            if form == 'function':
+                # the same relation for the key the real decorator computes (its ignore handling sits in front of _keygen)
+                _c11_decorator_level(out, seen, c, desc, spec, calls, shape, pnames, mode, idx, ci)
         if not out['samples'] and calls:
             out['samples'].append({'callable': desc, 'ignore_specs': len(specs), 'valid_calls': len(calls)})
+    _c11_explicit_instance(out, seen, shape, entered, maxpos, maxkw, mode, idx)
     return out
 
 
+def _c11_decorator_level(out, seen, c, desc, spec, calls, shape, pnames, mode, idx, ci):
+    import klepto
+    from klepto.keymaps import keymap as rawmap
+    try:
+        w = klepto.inf_cache(ignore=spec, keymap=rawmap(flat=False))(c)
+    except Exception as e:      # noqa
+        _viol(out, seen, 'decorator_total', 'decorating raises %s; ignore=%r' % (e.__class__.__name__, spec), '%s: inf_cache(ignore=%r) raised %r' % (desc, spec, e),
+              {'prop': 'C11', 'mode': mode, 'shape': idx, 'callable': ci, 'spec': list(spec), 'desc': desc, 'kind': 'decorator'})
+        return
+    by_proj, by_key = {}, {}
+    for (args, kwi, got) in calls:
+        out['evaluations'] += 1
+        try:
+            g = K.freeze(w.key(*args, **dict(kwi)), strict=True)
+        except Exception as e:      # noqa
+            _viol(out, seen, 'decorator_total', 'key() raises %s; ignore=%r' % (e.__class__.__name__, spec), '%s: inf_cache(ignore=%r).key raised %r for %s' % (desc, spec, e, K.call_repr(args, kwi)),
+                  {'prop': 'C11', 'mode': mode, 'shape': idx, 'callable': ci, 'spec': list(spec), 'call': _enc_call(args, kwi), 'desc': desc, 'kind': 'decorator'})
+            continue
+        p = K.freeze(project(shape, pnames, got, spec), strict=True)
+        q = by_proj.setdefault(p, (g, args, kwi))
+        r = by_key.setdefault(g, (p, args, kwi))
+        if q[0] != g or r[0] != p:
+            o = q if q[0] != g else r
+            _viol(out, seen, 'decorator_key_' + ('ignored_never_influence' if q[0] != g else 'others_still_discriminate'),
+                  klass_c11(shape, spec, list(kwi) + list(o[2]), 'through the decorator (inf_cache(ignore=...).key)'),
+                  '%s, inf_cache(ignore=%r): %s and %s: keys %s although the calls %s outside the ignored arguments'
+                  % (desc, spec, K.call_repr(args, kwi), K.call_repr(o[1], o[2]), 'differ' if q[0] != g else 'coincide', 'agree' if q[0] != g else 'differ'),
+                  {'prop': 'C11', 'mode': mode, 'shape': idx, 'callable': ci, 'spec': list(spec), 'call': _enc_call(args, kwi),
+                   'other': _enc_call(o[1], o[2]), 'desc': desc, 'kind': 'decorator'})
+
+
+def _c11_explicit_instance(out, seen, shape, entered, maxpos, maxkw, mode, idx):
+    """a plain function called with an explicit instance and 'self' in the ignore specification: the instance (truthy or
+    falsy) never influences the key"""
+    _, I, _ = K._mods()
+    func, it, iff, desc = S.make_unbound(shape, entered)
+    pnames = [S.POS_NAMES[i] for i in range(shape.npos)]
+    base = [('self',)] + [('self', x) for x in list(shape.names()) + [0, '*', '**']]
+    for spec in base:
+        by_proj = {}
+        for inst in (it, iff):
+            for (args0, kwi0) in S.call_forms(shape, maxpos, min(maxkw, 1), orders=False):
+                args = (inst,) + tuple(args0)
+                ok, got = S.really_binds(func, entered, args, kwi0)
+                if not ok:
+                    continue
+                out['evaluations'] += 1
+                try:
+                    g = K.freeze(I._keygen(func, spec, *args, **dict(kwi0)), strict=True)
+                except Exception as e:      # noqa
+                    _viol(out, seen, 'keygen_total', 'explicit instance: raises %s' % e.__class__.__name__, '%s ignore=%r: %r' % (desc, spec, e),
+                          {'prop': 'C11', 'mode': mode, 'shape': idx, 'spec': list(spec), 'desc': desc, 'kind': 'explicit-instance'})
+                    continue
+                p = K.freeze(project(shape, pnames, got, tuple(x for x in spec if x != 'self')), strict=True)
+                q = by_proj.setdefault(p, (g, len(inst), args0, kwi0))
+                if q[0] != g:
+                    _viol(out, seen, 'instance_ignored', "ignore contains 'self': the instance influences the key",
+                          "%s, ignore=%r: the call %s on an instance with len %d and on one with len %d get different _keygen output"
+                          % (desc, spec, K.call_repr(args0, kwi0), len(inst), q[1]),
+                          {'prop': 'C11', 'mode': mode, 'shape': idx, 'spec': list(spec), 'desc': desc, 'kind': 'explicit-instance',
+                           'call': _enc_call(args0, kwi0)})
+        out['distinct'] += len(by_proj)
+
+
 def replay_c11(w):
+    if w.get('kind') in ('decorator', 'explicit-instance'):
+        r = run_c11((w['mode'], w['shape']))
+        for v in r['violations']:
+            if v['witness'].get('kind') == w['kind'] and v['witness'].get('spec') == w['spec']:
+                return True, v['message'][:600]
+        return False, 'shape %d, ignore=%r: consistent' % (w['shape'], w['spec'])
     (npos, nkwo), maxpos, maxkw = _scope(w['mode'])
     shape = S.shapes(npos, nkwo)[w['shape']]
     entered = []
